@@ -22,6 +22,7 @@ THEOREMS = [
     "C04_fallthrough", "C04_solution_supplies", "C04_stack_shape", "C04_stack_empty",
     "C04_only_offer_supplies", "C04_earlier_location_supplies",
     "C04_pooled_key_later_first", "C04_pooled_head_prefers_later",
+    "C04_merge_cli_then_file", "C04_merge_keeps_cli", "C04_merge_no_duplicates", "C04_stack_follows_cmdline",
 ]
 RULE = ("universes of two projects whose versions (finals, pre/post releases, respelled names) are split at random over "
         "0-3 solution files, 0-2 source trees (setup.py projects), 0-3 find-links directories of generated wheels (some "
@@ -73,8 +74,9 @@ def _imports():
     import req_compile.repos.findlinks as F
     import req_compile.cmdline as CL
     import req_compile.errors as E
+    import req_compile.compile as CO
     logging.disable(logging.CRITICAL)
-    return {"enc440": enc440, "pkg_resources": pkg_resources, "Version": Version, "R": R, "M": M, "P": P, "S": S,
+    return {"CO": CO, "enc440": enc440, "pkg_resources": pkg_resources, "Version": Version, "R": R, "M": M, "P": P, "S": S,
             "T": T, "F": F, "CL": CL, "E": E}
 
 
@@ -348,6 +350,247 @@ def run_listing(mods, b: Built, rq: Dict[str, Any]) -> Optional[str]:
     return " ".join([str(len(out))] + [hx(file_label(b, b.ids[id(c.source)], c.filename)) for c in out])
 
 
+
+# ---- compile_main level: command-line + file-declared index URLs ---------------------------
+
+URLS = ["http://zeta.test/simple", "http://alpha.test/simple", "http://mid.test/simple", "http://beta.test/simple",
+        "http://omega.test/simple", "http://Alpha2.test/simple"]
+
+
+def gen_main_case(rng) -> Dict[str, Any]:
+    pool = gen_version_pool(rng)
+    urls = rng.sample(URLS, rng.choice([2, 3, 3, 4]))
+    holdings = {}
+    for u in urls:
+        seen, ws = set(), []
+        for _ in range(rng.choice([0, 1, 1, 2, 3])):
+            main = rng.random() < 0.85
+            v = rng.choice(pool)
+            if (main, v) in seen:
+                continue
+            seen.add((main, v))
+            ws.append([rng.choice(MAIN_WHEEL) if main else "baz", v, rng.choice(TAGS), rng.random() < 0.15])
+        holdings[u] = ws
+    pick = lambda n: [rng.choice(urls) for _ in range(n)]
+    files = []
+    nfiles = rng.choice([1, 1, 2])
+    with_opts = rng.random() < 0.8
+    for i in range(nfiles):
+        opts = []
+        if with_opts:
+            for u in pick(rng.choice([0, 1, 1, 2])):
+                opts.append(["--index-url", u])
+            for u in pick(rng.choice([0, 0, 1])):
+                opts.append(["--extra-index-url", u])
+            rng.shuffle(opts)
+        files.append({"options": opts, "reqs": []})
+    if with_opts and not any(f["options"] for f in files):
+        files[0]["options"].append(["--index-url", rng.choice(urls)])
+    spec = rng.choice(["", "", "", ">={v}", "=={v}", "<{v}", "!={v}"]).format(v=rng.choice(pool))
+    files[rng.randrange(nfiles)]["reqs"].append(rng.choice(MAIN) + spec)
+    return {"main": True, "urls": urls, "holdings": holdings, "cli_index": pick(rng.choice([0, 1, 2, 2, 3])),
+            "cli_extra": pick(rng.choice([0, 0, 1, 2])), "files": files, "pre": rng.random() < 0.25,
+            "no_index": rng.random() < 0.04}
+
+
+def main_lists(case: Dict[str, Any]) -> Tuple[List[str], List[str], bool]:
+    fi = [u for f in case["files"] for (o, u) in f["options"] if o == "--index-url"]
+    fe = [u for f in case["files"] for (o, u) in f["options"] if o == "--extra-index-url"]
+    return fi, fe, any(f["options"] for f in case["files"])
+
+
+def main_request(case: Dict[str, Any]) -> str:
+    return [r for f in case["files"] for r in f["reqs"]][0]
+
+
+def run_main(mods, case: Dict[str, Any], base: str) -> Dict[str, Any]:
+    """the real compile_main on generated argv + requirement files; HTTP faked at requests.Session.get;
+    observed: what build_repo receives, the stack it returns, the origin of the pin, the page requests"""
+    import contextlib
+    import requests
+    CL, P, M, enc440 = mods["CL"], mods["P"], mods["M"], mods["enc440"]
+    os.makedirs(base, exist_ok=True)
+    paths = []
+    for i, f in enumerate(case["files"]):
+        p = os.path.join(base, "reqs%d.in" % i)
+        with open(p, "w") as fh:
+            for o, u in f["options"]:
+                fh.write("%s %s\n" % (o, u))
+            for r in f["reqs"]:
+                fh.write(r + "\n")
+        paths.append(p)
+    argv = list(paths)
+    for u in case["cli_index"]:
+        argv += ["--index-url", u]
+    for u in case["cli_extra"]:
+        argv += ["--extra-index-url", u]
+    if case["pre"]:
+        argv.append("--pre")
+    if case["no_index"]:
+        argv.append("--no-index")
+    session = FakeSession()
+    for u in case["urls"]:
+        serve(session, u, case["holdings"][u])
+    fetched: List[str] = []
+
+    def fake_get(self, url, **kw):
+        fetched.append(url)
+        return session.get(url)
+    cap: Dict[str, Any] = {}
+    real_build, real_compile, real_get = CL.build_repo, CL.perform_compile, requests.Session.get
+
+    def spy_build(*a, **kw):
+        cap["index_urls"] = list(a[5])
+        cap["extra"] = None if kw.get("extra_index_urls") is None else list(kw["extra_index_urls"])
+        try:
+            cap["repo"] = real_build(*a, **kw)
+        except ValueError:
+            cap["repo"] = "ValueError"
+            raise
+        return cap["repo"]
+
+    def spy_compile(input_reqs, repo, *a, **kw):
+        res = real_compile(input_reqs, repo, *a, **kw)
+        cap["results"] = res[0]
+        return res
+    P._scan_page_links.cache_clear()
+    out, err = io.StringIO(), io.StringIO()
+    code = 0
+    try:
+        CL.build_repo, CL.perform_compile, requests.Session.get = spy_build, spy_compile, fake_get
+        with contextlib.redirect_stdout(out), contextlib.redirect_stderr(err):
+            try:
+                CL.compile_main(argv)
+            except SystemExit as ex:
+                code = ex.code if isinstance(ex.code, int) else 1
+    finally:
+        CL.build_repo, CL.perform_compile, requests.Session.get = real_build, real_compile, real_get
+        P._scan_page_links.cache_clear()
+    ids = {u: i for i, u in enumerate(case["urls"])}
+    default_id = len(case["urls"])
+    res: Dict[str, Any] = {"code": code, "index_urls": cap.get("index_urls"), "extra": cap.get("extra")}
+    repo = cap.get("repo")
+    if repo is None:
+        res["obs"] = "ERR build_repo-not-called"
+        return res
+    head = "I %s X %s" % (",".join(hx(u) for u in cap["index_urls"]) or "-", ",".join(hx(u) for u in (cap["extra"] or [])) or "-")
+    if repo == "ValueError":
+        res["obs"] = head + " | ERR ValueError"
+        return res
+    lid = lambda leaf: ids.get(getattr(leaf, "index_url", None), default_id)
+    top = repo.repositories if isinstance(repo, M.MultiRepository) and not isinstance(repo, M.PooledCandidateMultiRepository) else [repo]
+    shape = " ".join(("G" + ",".join(str(lid(m)) for m in n.repositories)) if isinstance(n, M.PooledCandidateMultiRepository) else "L%d" % lid(n)
+                     for n in top)
+    res["stack"] = [lid(l) for l in repo]
+    req = mods["pkg_resources"].Requirement.parse(main_request(case))
+    page = "/" + pep503(req.name) + "/"
+    log = []
+    for url in fetched:
+        if url.endswith(page):
+            basep = url[: -len(page)]
+            log.append(ids.get(basep, default_id))
+    res["log"] = log
+    node = None
+    if "results" in cap:
+        try:
+            node = cap["results"][req.name]
+        except KeyError:
+            node = None
+    if node is not None and node.metadata is not None:
+        md = node.metadata
+        oid = lid(md.origin)
+        ans = "F %d %s %s" % (oid, enc440.ver_token(md.version), hx("%d:%s" % (oid, md.candidate.filename)))
+        res["answer"] = (oid, str(md.version))
+    elif code != 0:
+        ans = "NC"
+        res["answer"] = None
+    else:
+        ans = "EXC no-node"
+    res["obs"] = "%s | %s | %s | %s" % (head, shape, ans, ",".join(map(str, log)) if log else "-")
+    return res
+
+
+def main_tokens(mods, case: Dict[str, Any]) -> Optional[str]:
+    rt = rq_tokens(mods, main_request(case))
+    if rt is None:
+        return None
+    fi, fe, hp = main_lists(case)
+    L = lambda xs: [str(len(xs))] + [hx(x) for x in xs]
+    toks = ["C", "1" if case["pre"] else "0", "1", str(mods["CO"].MAX_DOWNGRADE)] + rt
+    toks += L(case["cli_index"]) + L(fi) + L(case["cli_extra"]) + L(fe) + ["1" if hp else "0"]
+    toks.append(str(len(case["urls"])))
+    for i, u in enumerate(case["urls"]):
+        hs = []
+        for w in case["holdings"][u]:
+            ct = wheel_cand_tok(mods, i, w)
+            if ct is not None:
+                hs.append((pep503(w[0]), ct))
+        toks += [hx(u)] + repo_tokens(mods, "I", i, [], hs)
+    toks += repo_tokens(mods, "I", len(case["urls"]), [], [])
+    toks.append("1" if case["no_index"] else "0")
+    return " ".join(toks)
+
+
+def ordered_union(a: List[str], b: List[str]) -> List[str]:
+    out: List[str] = []
+    for x in a + b:
+        if x not in out:
+            out.append(x)
+    return out
+
+
+def certainly_able(ws: List[List[Any]], req, budget_free: bool) -> bool:
+    """independent of the code: the location holds a readable, installable wheel of the project whose FINAL
+    version satisfies the request (and no unreadable file of the project that could eat the budget)"""
+    import c03
+    from packaging.version import Version
+    mine = [w for w in ws if pep503(w[0]) == pep503(req.name)]
+    if not budget_free and any(w[3] for w in mine):
+        return False
+    for w in mine:
+        v = Version(w[1])
+        if (not w[3] and not v.is_prerelease and req.specifier.contains(v, prereleases=False)
+                and c03.ref_installable(wheel_name(w)) is True):
+            return True
+    return False
+
+
+def oracle_main(mods, case: Dict[str, Any], base: str) -> Optional[str]:
+    """the statement on the real compile_main only: indexes are consulted in command-line order, then in the
+    order the requirement files declare them; the first location able to supply the project supplies it and
+    later ones are not asked"""
+    r = run_main(mods, case, base)
+    fi, fe, hp = main_lists(case)
+    want_idx = ordered_union(case["cli_index"], fi)
+    want_extra = ordered_union(case["cli_extra"], fe)
+    if r.get("index_urls") is None:
+        return None
+    dedup = lambda xs: ordered_union(xs, [])
+    if dedup(r["index_urls"]) != want_idx or dedup(r["extra"] or []) != want_extra:
+        return (f"build_repo received index URLs {r['index_urls']} / extra {r['extra']}; listed order is {want_idx} / {want_extra} "
+                "(command line first, then the requirement files, first occurrence)")
+    if case["no_index"] or "stack" not in r:
+        return None
+    ids = {u: i for i, u in enumerate(case["urls"])}
+    order = [ids[u] for u in r["index_urls"]] if r["index_urls"] else [len(case["urls"])]
+    order += [ids[u] for u in (r["extra"] or [])]
+    if r["stack"] != order:
+        return f"repository stack {r['stack']} is not the listed order {order}"
+    req = mods["pkg_resources"].Requirement.parse(main_request(case))
+    by_id = {i: case["holdings"][u] for u, i in ids.items()}
+    first = next((i for i in order if i in by_id and certainly_able(by_id[i], req, False)), None)
+    ans = r.get("answer")
+    if first is not None:
+        if ans is None:
+            return f"no pin although index {first} ({case['urls'][first]}) offers a satisfying, readable wheel"
+        if order.index(ans[0]) > order.index(first):
+            return f"index {ans[0]} supplied the project although the earlier-listed index {first} ({case['urls'][first]}) offers a satisfying, readable wheel"
+    if ans is not None:
+        pos = order.index(ans[0])
+        if any(i in r["log"] for i in order[pos + 1:] if i not in order[: pos + 1]):
+            return f"indexes listed after the supplying one were queried: {r['log']} (order {order}, supplier {ans[0]})"
+    return None
+
 # ---- model encoding --------------------------------------------------------------------
 
 def cand_tok(enc440, name: str, ver, kind: str, usable: bool, readable: bool, extra: str, ts, label: str) -> List[str]:
@@ -529,6 +772,22 @@ def correspondence(ctx: Ctx) -> None:
                 shutil.rmtree(d2, ignore_errors=True)
         finally:
             shutil.rmtree(d, ignore_errors=True)
+    for k in range(ctx.n(250, 4000)):
+        case = gen_main_case(rng)
+        d = str(base / ("m%d" % k))
+        try:
+            r = run_main(mods, case, d)
+        finally:
+            shutil.rmtree(d, ignore_errors=True)
+        line = main_tokens(mods, case)
+        if line is None:
+            continue
+        fi, fe, hp = main_lists(case)
+        ctx.count("main:file-options=%d cli-index=%d file-index=%d" % (hp, len(case["cli_index"]), len(fi)))
+        lines.append(line)
+        eff = ordered_union(case["cli_index"], fi) + ordered_union(case["cli_extra"], fe)
+        nholders = sum(1 for u in set(eff) if any(pep503(w[0]) == "foo-bar" for w in case["holdings"][u]))
+        expect.append(("compile_main", case, r["obs"], nholders >= 2 and hp))
     for nme in MAIN + OTHER + ["a--b", "A..b_c", "x y", "a-_.b"]:
         lines.append("N " + hx(nme))
         expect.append(("pep503", nme, hx(pep503(nme)), False))
@@ -558,6 +817,11 @@ def correspondence(ctx: Ctx) -> None:
                     ctx.count("fell-through-at-least-one")
             ctx.case(key=case_key(case["universe"], case["request"]), nontrivial=nontriv,
                      sample={"case": case, "impl": show(exp), "model": show(ans)} if ctx.evaluations % 301 == 0 else None)
+        elif where == "compile_main":
+            parts = exp.split(" | ")
+            ctx.count("main-answer:" + (parts[2].split()[0] if len(parts) > 2 else parts[-1]))
+            ctx.case(key=("main", json.dumps(case, sort_keys=True)), nontrivial=nontriv,
+                     sample={"case": case, "impl": show(exp), "model": show(ans)} if ctx.evaluations % 97 == 0 else None)
         else:
             ctx.case(key=(where, json.dumps(case, sort_keys=True)), nontrivial=False)
             ctx.count("kind:" + where)
@@ -712,10 +976,20 @@ def oracle(mods, u: Dict[str, Any], rq: Dict[str, Any], base: str) -> Optional[s
         vs = [Version(v) for _, n, v in projs if pep503(n) == pep503(req.name)]
         if any(req.specifier.contains(v, prereleases=True) for v in vs):
             should.append(len(u["solutions"]) + i)
+    # find-links directories and indexes: a readable installable wheel whose final version satisfies
+    wheel_locs = [(len(u["solutions"]) + len(u["sources"]) + i, ws) for i, ws in enumerate(u["find_links"])]
+    nid = len(u["solutions"]) + len(u["sources"]) + len(u["find_links"])
+    wheel_locs += [(nid + i, ws) for i, ws in enumerate(u["index_urls"])]
+    wheel_locs.append((b.default_id, u["default"]))
+    wheel_locs += [(b.default_id + 1 + i, ws) for i, ws in enumerate(u["extra"] or [])]
+    for i, ws in wheel_locs:
+        if i in want_order and certainly_able(ws, req, rq["budget"] is None):
+            should.append(i)
+    should.sort(key=want_order.index)
     if should:
         got = None if parts[1] == "NC" else int(parts[1].split()[1])
         if got is None or want_order.index(got) > want_order.index(should[0]):
-            return (f"location {should[0]} (a solution / source tree) holds a satisfying version of the project but "
+            return (f"location {should[0]} ({b.locs[should[0]][0]}: solution / source tree / find-links / index) holds a satisfying, readable version of the project but "
                     + ("nothing answered" if got is None else f"location {got} answered"))
     if parts[1] == "NC":
         if first is not None:
@@ -758,7 +1032,26 @@ def search(ctx: Ctx) -> Optional[Dict[str, Any]]:
         u = gen_universe(rng)
         for rq in u["requests"]:
             suspects.append((u, rq))
+    main_suspects = [m["case"] for m in ctx.mismatches if isinstance(m.get("case"), dict) and m["case"].get("main")]
+    for _ in range(ctx.n(300, 3000)):
+        main_suspects.append(gen_main_case(rng))
     best = None
+    for k, case in enumerate(main_suspects):
+        d = os.path.join(base, "m%d" % k)
+        try:
+            why = oracle_main(mods, case, d)
+        except Exception:
+            why = None
+        finally:
+            shutil.rmtree(d, ignore_errors=True)
+        if why:
+            size = len(json.dumps(case))
+            if best is None or size < best[0]:
+                best = (size, {"input": case, "why": why})
+            if size < 700:
+                break
+    if best is not None:
+        return best[1]
     for k, (u, rq) in enumerate(suspects):
         d = os.path.join(base, "s%d" % k)
         try:
@@ -783,6 +1076,8 @@ def replay(ctx: Ctx, payload: Dict[str, Any]) -> bool:
     mods = _imports()
     d = str(ctx.tmpdir() / "replay")
     try:
+        if fi["input"].get("main"):
+            return oracle_main(mods, fi["input"], d) is not None
         return oracle(mods, fi["input"]["universe"], fi["input"]["request"], d) is not None
     finally:
         shutil.rmtree(d, ignore_errors=True)
